@@ -25,6 +25,7 @@ type RigOpts struct {
 	ServerPingOff bool          // server sends no pings (and answers the client's pings with pongs)
 	ClientTimeout time.Duration // 0 = library default (30s)
 	ClientPing    time.Duration // 0 = library default (5s)
+	ClientPingOff bool          // the client sends no pings of its own (WithPingInterval(0)); its timeout still guards reads
 	BackoffMin    time.Duration
 	BackoffMax    time.Duration
 	NoReconnect   bool
@@ -231,7 +232,9 @@ func (r *Rig) NewClient(id string) (*RigClient, error) {
 	if o.ClientTimeout != 0 {
 		opts = append(opts, jsonrpc.WithTimeout(o.ClientTimeout))
 	}
-	if o.ClientPing != 0 {
+	if o.ClientPingOff {
+		opts = append(opts, jsonrpc.WithPingInterval(0))
+	} else if o.ClientPing != 0 {
 		opts = append(opts, jsonrpc.WithPingInterval(o.ClientPing))
 	}
 	if o.BackoffMin != 0 {
